@@ -8,6 +8,7 @@
 //@include chrono_standin.vs
 //@include formatter_vocab.vs
 use crate::parser::*;
+//@include stack_vocab.vs
 //@include parser_vocab.vs
 //@include seam_vocab.vs
 //@include block_vocab.vs
@@ -124,7 +125,8 @@ pub mod tokenizer_fns {
 use super::*;
 use crate::tokenizer::*;
 //@include tokenizer_vocab.vs
-//@import tokenize only=tokens_are_source_slices,tokens_partition_source
+//@include tokenizer_spec_vocab.vs
+//@import tokenize
 }
 
 pub mod parser_fns {
@@ -133,7 +135,7 @@ use crate::tokenizer;
 use crate::parser::*;
 use crate::tokenizer_fns::{tok_chain, toks_ok, tok_ok};
 use crate::remover::{parts_wf, parts_on_b, all_el_wf};
-//@import parser_parse_proved only=every_token_once_in_order
+//@import parser_parse_proved
 
 pub proof fn lemma_toks_seq_ok_all(ts: Seq<tokenizer::Token>, cs: Seq<char>)
     ensures forall|ds: &str, de: &str| tok_chain(ts, cs, cs.len() as int) && #[trigger] toks_ok(ts, encode_utf8(cs), ds, de) ==> crate::remover::toks_seq_ok(ts, encode_utf8(cs)),
@@ -190,14 +192,73 @@ use std::{collections::{HashMap, HashSet}, rc::Rc};
     forall|b: Seq<u8>, p: int| #![trigger r@[3].spec_format(b, p)] r@[3].spec_format(b, p) == next_remover_spec(b, p),
 //@end
 
+pub open spec fn has_attr(el: crate::parser::Element, name: Seq<char>) -> bool {
+    exists|i: int| 0 <= i < el.start_element.attrs@.len() && (#[trigger] el.start_element.attrs@[i]).name@ == name
+}
+/// the remover a configuration stands for (C05 / C06 / C03 / C11 at the entry point): the two strategies in
+/// their order (unwrap-block when the opening tag has that attribute, else the whole element), and exactly two
+/// registered tag names, each with its evaluator built from the configuration (the removal-marker name wins
+/// if both tag names are equal, as the later insert does)
+pub open spec fn configured(r: Remover, config: ChiritoriConfiguration, b: Seq<u8>) -> bool {
+    let s = r.remove_strategies@;
+    let tl = crate::removal_evaluator::time_limited_evaluator::TimeLimitedEvaluator { current_time: config.time_limited_configuration.current, time_offset: config.time_limited_configuration.time_offset };
+    let rm = crate::removal_evaluator::marker_evaluator::MarkerEvaluator { marker_removal_names: config.removal_marker_configuration.targets };
+    let rm_tag = config.removal_marker_configuration.tag_name@;
+    let tl_tag = config.time_limited_configuration.tag_name@;
+    &&& s.len() == 2
+    &&& forall|el: crate::parser::Element| #![trigger s[0].0.spec_available(el)] s[0].0.spec_available(el) == has_attr(el, "unwrap-block"@)
+    &&& forall|el: crate::parser::Element| #![trigger s[0].1.spec_build(el)] s[0].1.spec_build(el) == unwrap_spec(b, el)
+    &&& forall|el: crate::parser::Element| #![trigger s[1].0.spec_available(el)] s[1].0.spec_available(el)
+    &&& forall|el: crate::parser::Element| #![trigger s[1].1.spec_build(el)] s[1].1.spec_build(el) == (Range { start: el.start_token.byte_start, end: el.end_token.byte_end }, None::<Range<usize>>)
+    &&& forall|name: Seq<char>| #![trigger str_lookup(r.removal_evaluators@, name)]
+            match str_lookup(r.removal_evaluators@, name) {
+                Some(ev) => (name == rm_tag || name == tl_tag) && (forall|e: crate::element_parser::Element| #![trigger ev.spec_is_removal(e)]
+                    ev.spec_is_removal(e) == (if name == rm_tag { rm.spec_is_removal(e) } else { tl.spec_is_removal(e) })),
+                None => name != rm_tag && name != tl_tag,
+            }
+}
+
 //@fn id=build_remover file=chiritori.rs name=build_remover props=C01,C02,C03,C05,C06,C11
 //@ret r
+//@ensures label=remover_is_the_configured_one props=C03,C05,C06,C11
+    configured(r, config, encode_utf8(content@)),
 //@ensures label=strategies_established props=C01,C02,C03,C11
     strategies_ok(r.remove_strategies@),
     strategies_bounded(r.remove_strategies@, encode_utf8(content@)),
     r.remove_strategies@.len() == 2,
 //@at body-start
-    broadcast use {axiom_string_key_model, axiom_str_lookup_empty, axiom_str_lookup_insert};
+    broadcast use {axiom_string_key_model, axiom_str_lookup_empty, axiom_str_lookup_insert, vstd::std_specs::hash::axiom_random_state_builds_valid_hashers};
+//@bindargs "builder_map.insert(" 1 vars="__k1: String; __v1: Box<dyn RemovalEvaluator>"
+//@bindargs "builder_map.insert(" 2 vars="__k2: String; __v2: Box<dyn RemovalEvaluator>"
+//@at before "let __k1: String" 1
+    let ghost __tl = crate::removal_evaluator::time_limited_evaluator::TimeLimitedEvaluator { current_time: config.time_limited_configuration.current, time_offset: config.time_limited_configuration.time_offset };
+    let ghost __rm = crate::removal_evaluator::marker_evaluator::MarkerEvaluator { marker_removal_names: config.removal_marker_configuration.targets };
+    let ghost __m0 = builder_map@;
+//@at before "builder_map.insert(__k1, __v1)"
+    let ghost __gk1 = __k1;
+    let ghost __gv1 = __v1;
+//@at before "let __k2: String" 1
+    let ghost __m1 = builder_map@;
+//@at before "builder_map.insert(__k2, __v2)"
+    let ghost __gk2 = __k2;
+    let ghost __gv2 = __v2;
+//@at before "let remove_strategy_map: RemoveStrategies"
+    let ghost __m2 = builder_map@;
+    // (vstd's Map axioms are not instantiated automatically for dyn-typed values: the inserted boxes are named (R12)
+    //  and the lookup axioms are called explicitly)
+    proof {
+        assert(__m0 =~= Map::<String, Box<dyn RemovalEvaluator>>::empty());
+        assert(__m1 == __m0.insert(__gk1, __gv1));
+        assert(__m2 == __m1.insert(__gk2, __gv2));
+        assert forall|e: crate::element_parser::Element| #![trigger __gv1.spec_is_removal(e)] __gv1.spec_is_removal(e) == __tl.spec_is_removal(e) by {}
+        assert forall|e: crate::element_parser::Element| #![trigger __gv2.spec_is_removal(e)] __gv2.spec_is_removal(e) == __rm.spec_is_removal(e) by {}
+        assert forall|name: Seq<char>| #![trigger str_lookup(__m2, name)]
+            str_lookup(__m2, name) == (if name == __gk2@ { Some(__gv2) } else if name == __gk1@ { Some(__gv1) } else { None::<Box<dyn RemovalEvaluator>> }) by {
+            axiom_str_lookup_insert(__m1, __gk2, __gv2, name);
+            axiom_str_lookup_insert(__m0, __gk1, __gv1, name);
+            axiom_str_lookup_empty::<Box<dyn RemovalEvaluator>>(name);
+        }
+    }
 //@at before "Remover::new(builder_map, remove_strategy_map)"
     proof {
         let s = remove_strategy_map@;
@@ -209,6 +270,12 @@ use std::{collections::{HashMap, HashSet}, rc::Rc};
         assert forall|i: int, el: crate::parser::Element| 0 <= i < s.len() && el_wf(el) && el_on_b(el, b) implies range_on_b(#[trigger] s[i].1.spec_build(el), b) by {
             if i == 0 { lemma_unwrap_spec_on_b(b, el); }
         }
+        assert(builder_map@ == __m2);
+        assert(s.len() == 2);
+        assert forall|el: crate::parser::Element| #![trigger s[0].0.spec_available(el)] s[0].0.spec_available(el) == has_attr(el, "unwrap-block"@) by {}
+        assert forall|el: crate::parser::Element| #![trigger s[0].1.spec_build(el)] s[0].1.spec_build(el) == unwrap_spec(b, el) by {}
+        assert forall|el: crate::parser::Element| #![trigger s[1].0.spec_available(el)] s[1].0.spec_available(el) by {}
+        assert forall|el: crate::parser::Element| #![trigger s[1].1.spec_build(el)] s[1].1.spec_build(el) == (Range { start: el.start_token.byte_start, end: el.end_token.byte_end }, None::<Range<usize>>) by {}
     }
 //@end
 
@@ -234,6 +301,23 @@ pub open spec fn clean_witness(b: Seq<u8>, out: Seq<u8>, r: Remover, parts: Seq<
 }
 pub open spec fn clean_post(b: Seq<u8>, out: Seq<u8>) -> bool {
     exists|r: Remover, parts: Seq<crate::parser::ContentPart>, w: Seq<Range<usize>>| #[trigger] clean_witness(b, out, r, parts, w)
+}
+/// The whole pipeline, pinned to the source and the configuration: the tokens are tokenize_spec's (C07/C08) and
+/// partition the source; the parse tree holds every token once, in order, paired by the stack rule (C10); the
+/// remover is the configured one (C03/C05/C06/C11); and the output is del(del(source, M), W) as in clean_witness.
+pub open spec fn clean_pipeline(cs: Seq<char>, ds: Seq<char>, de: Seq<char>, config: ChiritoriConfiguration, out: Seq<u8>,
+        ts: Seq<crate::tokenizer::Token>, r: Remover, parts: Seq<crate::parser::ContentPart>, w: Seq<Range<usize>>) -> bool {
+    let b = encode_utf8(cs);
+    &&& crate::tokenizer_fns::tvs(ts) == crate::tokenizer_fns::tokenize_spec(cs, ds, de)
+    &&& crate::tokenizer_fns::tok_chain(ts, cs, cs.len() as int)
+    &&& crate::flatten(parts) == ts
+    &&& crate::gp(parts) == crate::stack_parse(ts, crate::tok_nm())
+    &&& configured(r, config, b)
+    &&& clean_witness(b, out, r, parts, w)
+}
+pub open spec fn clean_post_full(cs: Seq<char>, ds: Seq<char>, de: Seq<char>, config: ChiritoriConfiguration, out: Seq<u8>) -> bool {
+    exists|ts: Seq<crate::tokenizer::Token>, r: Remover, parts: Seq<crate::parser::ContentPart>, w: Seq<Range<usize>>|
+        #[trigger] clean_pipeline(cs, ds, de, config, out, ts, r, parts, w)
 }
 
 pub proof fn lemma_mm_post_parts(f: Seq<GTree>, mk: Seq<RemoveMarker>)
@@ -273,9 +357,14 @@ pub proof fn lemma_removed_pos_eq(mk: Seq<RemoveMarker>, rp: Seq<crate::RemovedM
     delimiters.1@.len() > 0,
 //@ensures label=clean_post props=C01,C02,C03,C04,C14
     clean_post(encode_utf8(content@), encode_utf8(out@)),
+//@ensures label=clean_is_the_configured_pipeline props=C02,C03,C04,C05,C06,C11
+    clean_post_full(content@, delimiters.0@, delimiters.1@, config, encode_utf8(out@)),
 //@at body-start
-    hide(collect_spec); hide(mm_spec); hide(wf_forest); hide(forest_covered); hide(forest_endpoint); hide(forest_size); hide(parts_wf); hide(parts_on_b); hide(all_el_wf); hide(count_elements); hide(mm_post); hide(format_post); hide(wf_ranges); hide(strategies_ok); hide(strategies_bounded); hide(removed_pos_of); hide(markers_sorted); hide(pairs_consistent); hide(del_from); hide(crate::tokenizer_fns::tok_chain); hide(crate::tokenizer_fns::toks_ok);
+    hide(collect_spec); hide(mm_spec); hide(wf_forest); hide(forest_covered); hide(forest_endpoint); hide(forest_size); hide(parts_wf); hide(parts_on_b); hide(all_el_wf); hide(count_elements); hide(mm_post); hide(format_post); hide(wf_ranges); hide(strategies_ok); hide(strategies_bounded); hide(removed_pos_of); hide(markers_sorted); hide(pairs_consistent); hide(del_from); hide(crate::tokenizer_fns::tok_chain); hide(crate::tokenizer_fns::toks_ok); hide(crate::tokenizer_fns::tokenize_spec); hide(crate::stack_parse); hide(crate::gp); hide(crate::flatten); hide(configured);
     let ghost b = encode_utf8(content@);
+    let ghost __cfg = config;
+    let ghost __ds = delimiters.0@;
+    let ghost __de = delimiters.1@;
     proof { encode_utf8_valid_utf8(content@); axiom_rc_string_len_isize(content); }
 //@at before "let remover = build_remover"
     proof {
@@ -322,6 +411,15 @@ pub proof fn lemma_removed_pos_eq(mk: Seq<RemoveMarker>, rp: Seq<crate::RemovedM
             assert(mid == del_from(b, marker_ranges(mk), 0));
             assert(__rp == removed_pos_of(mk));
             if mk.len() == 0 { assert(__rp.len() == 0) by { reveal(removed_pos_of); } assert(mid == b); }
+        }
+        assert(crate::tokenizer_fns::tvs(tokens@) == crate::tokenizer_fns::tokenize_spec(content@, __ds, __de));
+        assert(crate::tokenizer_fns::tok_chain(tokens@, content@, content@.len() as int));
+        assert(crate::flatten(parts) == tokens@);
+        assert(crate::gp(parts) == crate::stack_parse(tokens@, crate::tok_nm()));
+        assert(configured(remover, __cfg, b));
+        assert forall|w: Seq<Range<usize>>, o: Seq<u8>| #[trigger] format_post(mid, __rp, w, o) && (__rp.len() == 0 ==> o == mid)
+            implies clean_pipeline(content@, __ds, __de, __cfg, o, tokens@, remover, parts, w) by {
+            assert(clean_witness(b, o, remover, parts, w));
         }
     }
 //@end
